@@ -1,7 +1,8 @@
 // C20 harness: drives a real TeamCityTestOutput (subclassed only to capture printBuffer) through a private TestRegistry with
 // scripted tests and prints the captured byte stream.
-// Scenario:  <dur> <ntests> { <group> <name> <file> <line> <ignored> <nstmts> { :p <text> | :f <file> <line> <msg> | :x <file> <line> <msg> } }
+// Scenario:  <dur> <nfilters> { <name> } <ntests> { <group> <name> <file> <line> <ignored> <nstmts> { :p <text> | :f <file> <line> <msg> | :x <file> <line> <msg> } }
 //            dur = milliseconds every test that runs takes (the clock seam is advanced by the test body);
+//            filters = strict name filters (-sn): with at least one, only tests whose name equals one of them run;
 //            :p = TestResult::print(text), :f = addFailure (test continues), :x = fail() (test terminates)
 //            :raw <bytes>   -- parser differential only: answered by  :raw <bytes>  (no library code involved)
 // Observation: <stream>   everything the output object passed to printBuffer, in order.
@@ -9,6 +10,7 @@
 #include "CppUTest/TestRegistry.h"
 #include "CppUTest/TestResult.h"
 #include "CppUTest/TestFailure.h"
+#include "CppUTest/TestFilter.h"
 #include "CppUTest/TeamCityTestOutput.h"
 #include "CppUTest/PlatformSpecificFunctions.h"
 #include "hlib.h"
@@ -71,6 +73,9 @@ int main()
             continue;
         }
         dur_ms = (unsigned long)t.u(); now_ms = 0;
+        int nf = t.n();
+        std::vector<std::string> fnames((size_t)nf);
+        for (int i = 0; i < nf; i++) t.bytes(fnames[(size_t)i]);
         int n = t.n();
         std::vector<TestDef> defs((size_t)n);
         for (int i = 0; i < n; i++) {
@@ -91,6 +96,14 @@ int main()
             for (int i = 0; i < n; i++)
                 shells.emplace_back(defs[(size_t)i].ignored ? (UtestShell*)new IgnoredScriptShell(&defs[(size_t)i]) : (UtestShell*)new ScriptShell(&defs[(size_t)i]));
             for (int i = n - 1; i >= 0; i--) reg.addTest(shells[(size_t)i].get());
+            std::vector<std::unique_ptr<TestFilter> > filters;
+            TestFilter* chain = NULLPTR;
+            for (int i = nf - 1; i >= 0; i--) {
+                filters.emplace_back(new TestFilter(fnames[(size_t)i].c_str()));
+                filters.back()->strictMatching();
+                chain = filters.back()->add(chain);
+            }
+            reg.setNameFilters(chain);
             CapturingTeamCityOutput out;
             TestResult result(out);
             reg.runAllTests(result);
